@@ -2,6 +2,12 @@ import Marwood.Spec.Eval
 import Marwood.Lemmas.EvalOperandOrder
 import Marwood.Lemmas.EvalFrameMain
 import Marwood.Lemmas.EvalPrelude
+import Marwood.Lemmas.EvalMonoMain
+import Marwood.Lemmas.EvalDerivedCond
+import Marwood.Lemmas.EvalDerivedExpand
+import Marwood.Lemmas.CompileCorrect
+import Marwood.Lemmas.CompileCorrectDemo
+import Marwood.Lemmas.CompileCorrectLoop
 /-!
 # C01 — evaluation agrees with the language semantics for core and derived forms
 
@@ -11,13 +17,25 @@ What is proved here and what is not (see `lib/props/c01.py` META.note):
   then the operator code, then `CALL`/`TCALL`.
 * T01.1 (`independence`, `independence_from`, `define_procedure_onlyBinds`): the frame property of
   `Spec.Eval`, closed, for every fuel / session / unrelated definition.
-* T01.2, first half only (`Lemmas/EvalPrelude.lean`, re-checked against the regenerated
-  `Gen/Prelude.lean` = what `prelude.scm` says now): the R7RS matcher expands schematic uses of
-  when / unless / begin / and / or / let / case-with-final-`=>` with the prelude's rules to the
-  expected core forms. The second half (evaluating the expansion = evaluating the form natively)
-  is **not** proved: it needs fuel monotonicity of `Spec.Eval`.
-* T01.3 (compiler correctness, `run (compile e) ≈ Spec.Eval e`) is **not** proved; the agreement of
-  the real pipeline with `Spec.Eval` is carried by the differential correspondence.
+* Fuel monotonicity of `Spec.Eval` (`fuel_monotone`, `fuel_monotone_apply`, `session_fuel_monotone`;
+  `Lemmas/EvalMono*.lean`), closed: a definite outcome reached with fuel `n` is reached, with the same
+  state, with every larger fuel.
+* T01.2 (`Lemmas/EvalPrelude.lean`, `Lemmas/EvalDerived*.lean`; everything is re-checked against the
+  regenerated `Gen/Prelude.lean` = what `prelude.scm` says now). First half: the R7RS matcher expands
+  the uses with the prelude's rules to the expected terms (`Lemmas/EvalDerivedShapes.lean`).
+  Second half (section "T01.2 second half" below): evaluating the expansion agrees with the native
+  meaning, up to fuel — closed for when, unless (under "`not` is the primitive"), begin (bodies
+  without definitions), and, or (0/1 operands), let, let*, named let, cond (else clause; clauses with
+  a body), case (`else =>`); `letrec` up to the content of uninitialised variables (`#f` vs
+  `#<undefined>`); for the rules that bind `var1` / `temp` (or with ≥ 2 operands, cond `=>` and
+  test-only clauses) only what the expansion computes is characterised and the capture is proved at
+  witnesses; case with a datum list and delay are open (see `lib/props/c01.py` META.note).
+* T01.3 (compiler correctness, `run (compile e) ≈ Spec.Eval e`): stage 1 only, `_partial`
+  (`compile_correct_stage1_partial`, `compile_define_stage1_partial`; `Lemmas/CompileCorrect*.lean`): the
+  closure-free fragment, the success case, on the model machine over an abstract heap satisfying the
+  explicit laws `RepLaws` (the behaviour of builtin calls is one of the laws). Closures, lexical
+  variables, `quote` of pairs, the error case are open; the agreement of the real pipeline with
+  `Spec.Eval` is carried by the differential correspondence.
 -/
 namespace Marwood.Proofs.C01
 open Marwood Marwood.Vm
@@ -184,5 +202,364 @@ theorem or_capture_spec_witness :
                   Datum.ofList [.sym k_or_, .bool false, .sym ['v','a','r','1']]],
                 Datum.ofList [.sym ['h','y'], .num (.fix 9)]]
       = [.ok .void, .ok (.num (.fix 9))] := by decide +kernel
+
+
+/-! ## Fuel monotonicity of `Spec.Eval` -/
+
+/-- **Fuel monotonicity.** If evaluating `e` with fuel `n` ends with a definite outcome — a value or an
+    error, not `timeout` — then every fuel `m ≥ n` ends with the same outcome: same value or error
+    class, same globals, store and output log. -/
+theorem fuel_monotone {n m : Nat} (h : n ≤ m) (e : Datum) (ρ : Env) (st : St)
+    (hd : (evalN n).eval e ρ st ≠ .timeout) : (evalN m).eval e ρ st = (evalN n).eval e ρ st :=
+  evalN_mono h e ρ st hd
+
+/-- the fuel decides whether an outcome is reached, never which: definite outcomes are unique -/
+theorem outcome_unique {n m : Nat} (e : Datum) (ρ : Env) (st : St)
+    (hn : (evalN n).eval e ρ st ≠ .timeout) (hm : (evalN m).eval e ρ st ≠ .timeout) :
+    (evalN n).eval e ρ st = (evalN m).eval e ρ st := definite_unique e ρ st hn hm
+
+/-- … the same for the application of a procedure value to arguments (closures, every primitive,
+    `apply`, `eval`, `force`, `map`, `for-each`) -/
+theorem fuel_monotone_apply {n m : Nat} (h : n ≤ m) (f : Val) (args : List Val) (st : St)
+    (hd : (evalN n).apply f args st ≠ .timeout) : (evalN m).apply f args st = (evalN n).apply f args st :=
+  applyN_mono h f args st hd
+
+/-- … and for whole sessions: if no form of the session runs out of fuel `n`, every `m ≥ n` gives
+    the same results and the same output log -/
+theorem session_fuel_monotone {n m : Nat} (h : n ≤ m) (session : List Datum)
+    (hd : ∀ r ∈ results n session, r ≠ FormRes.timeout) :
+    results m session = results n session ∧ output m session = output n session :=
+  ⟨results_mono h session hd, output_mono h session hd⟩
+
+/-- non-vacuity: the session of the independence example is definite at fuel 10 -/
+example : ∀ r ∈ results 10 [Datum.ofList [.sym ['+'], .num (.fix 1), .num (.fix 2)]], r ≠ FormRes.timeout := by
+  decide +kernel
+
+
+/-! ## T01.2 second half: evaluating the prelude's expansion agrees with the native meaning
+
+`Same k use exp ρ` (`Lemmas/EvalDerived.lean`): for every fuel `n` and every state, whatever
+`Spec.Eval` yields definitely for `use` with fuel `n` it yields for `exp` with fuel `n + k`, and
+vice versa — same value or error class, same globals, store and output log. By fuel monotonicity
+this is "for every sufficient fuel"; `derived_limit` is the fuel-free reading. -/
+
+open Marwood.Spec.Eval.Derived Marwood.Spec.Eval.Prelude
+
+/-- the fuel-free reading of `Same`/`SameAt`: the definite outcomes some fuel yields coincide -/
+theorem derived_limit {k : Nat} {use exp : Datum} {ρ : Env} {st : St} (h : SameAt k use exp ρ st)
+    (res : Res Val) (hres : res ≠ .timeout) :
+    (∃ n, (evalN n).eval use ρ st = res) ↔ (∃ n, (evalN n).eval exp ρ st = res) :=
+  h.limit res hres
+
+/-- `(when t b body …)` ≈ `(if t (begin b body …))` -/
+theorem derived_when (ρ : Env) (t b : Datum) (body : List Datum) :
+    Same 1 (whenUse t b body) (whenExp t b body) ρ := when_same ρ t b body
+
+/-- `(unless t b body …)` ≈ `(if (not t) (begin b body …))`, from every state such that `not` is not
+    shadowed lexically and is globally bound to the primitive after `t` has been evaluated (the
+    expansion refers to `not` by name: not hygienic) -/
+theorem derived_unless (ρ : Env) (t b : Datum) (body : List Datum) (st : St) (hρ : ρ.lookup k_not = none)
+    (hnot : ∀ m v st1, (evalN m).eval t ρ st = .ok v st1 → st1.globals.lookup k_not = some (.prim .not)) :
+    SameAt 2 (unlessUse t b body) (unlessExp t b body) ρ st := unless_same ρ t b body st hρ hnot
+
+/-- the hypotheses of `derived_unless` hold in the initial state for a constant test -/
+example : ([] : Env).lookup k_not = none ∧
+    ∀ m v st1, (evalN m).eval (.bool false) [] initSt = .ok v st1 → st1.globals.lookup k_not = some (.prim .not) := by
+  refine ⟨rfl, ?_⟩
+  intro m v st1 h
+  cases m with
+  | zero => cases h
+  | succ m =>
+    have : st1 = initSt := by
+      have h' : Res.ok (Val.bool false) initSt = Res.ok v st1 := h
+      cases h'; rfl
+    subst this
+    decide +kernel
+
+/-- `(begin e …)` ≈ `((lambda () e …))` when no `e` is a definition (with definitions the expansion
+    makes them internal definitions of the `lambda` body, the native `begin` does not: known finding
+    `C01-toplevel-begin-define` at top level) -/
+theorem derived_begin (ρ : Env) (es : List Datum) (h : ∀ e ∈ es, isDefine e = false) :
+    Same 1 (beginUse es) (beginExp es) ρ := begin_same ρ es h
+
+/-- with a definition the two differ: inside a body, native `begin` rejects it, the expansion defines -/
+theorem begin_define_differs :
+    results 10 [L [L [s k_lambda, .nil, beginUse [L [s k_define, s ['x'], .num (.fix 1)], s ['x']]]]] = [.err .syntax] ∧
+    results 10 [L [L [s k_lambda, .nil, beginExp [L [s k_define, s ['x'], .num (.fix 1)], s ['x']]]]] = [.ok (.num (.fix 1))] := by
+  decide +kernel
+
+/-- `(and)` ≈ `#t`, `(and e)` ≈ `e`, `(and e e2 …)` ≈ `(if e (and e2 …) #f)` -/
+theorem derived_and (ρ : Env) (es : List Datum) : Same 1 (andUse es) (andExp es) ρ := and_same ρ es
+
+/-- `(or)` ≈ `#f`, `(or e)` ≈ `e` -/
+theorem derived_or_short (ρ : Env) (e : Datum) :
+    Same 1 (orUse []) (orExp []) ρ ∧ Same 1 (orUse [e]) (orExp [e]) ρ := ⟨or_same_nil ρ, or_same_one ρ e⟩
+
+/-- `(or e e2 …)` against `(let ((var1 e)) (if var1 var1 (or e2 …)))`: what each computes. The
+    expansion allocates a variable `var1` and evaluates the remaining operands under that binding;
+    apart from that the two computations are the same. (Not an equivalence theorem: see
+    `or_capture_expansion_witness` for the capture, `derived_or_first_true` for the case that closes.) -/
+theorem derived_or_partial (ρ : Env) (n : Nat) (e e2 : Datum) (es : List Datum) :
+    (evalN (n+1)).eval (orUse (e :: e2 :: es)) ρ = (do
+      let v ← (evalN n).eval e ρ
+      if truthy v then pure v else evalOr (evalN n) ρ (e2 :: es)) ∧
+    (evalN (n+4)).eval (orExp (e :: e2 :: es)) ρ = (do
+      let v ← (evalN (n+3)).eval e ρ
+      let l ← allocCell (.var v)
+      if truthy v then pure v else evalOr (evalN (n+1)) ((k_var1, l) :: ρ) (e2 :: es)) :=
+  ⟨or_native_eval ρ n e e2 es, or_exp_eval ρ n e e2 es⟩
+
+/-- when the first operand is true: same value, globals and output; the expansion's store is the
+    native store plus the one variable cell -/
+theorem derived_or_first_true (ρ : Env) (n : Nat) (e e2 : Datum) (es : List Datum) (st st1 : St) (v : Val)
+    (he : (evalN n).eval e ρ st = .ok v st1) (hv : truthy v = true) :
+    (evalN (n+1)).eval (orUse (e :: e2 :: es)) ρ st = .ok v st1 ∧
+    (evalN (n+4)).eval (orExp (e :: e2 :: es)) ρ st = .ok v { st1 with store := st1.store.push (.var v) } :=
+  or_exp_truthy ρ n e e2 es st st1 v he hv
+
+/-- known finding `C01-prelude-macro-capture`, `or`: with `var1` free in a later operand the
+    expansion yields `#f` where the form means 9 (`or_capture_spec_witness`) -/
+theorem or_capture_expansion_witness :
+    results 10 [L [s k_define, L [s ['h','y'], s k_var1], orExp [.bool false, s k_var1]],
+                L [s ['h','y'], .num (.fix 9)]] = [.ok .void, .ok (.bool false)] ∧
+    results 10 [L [s k_define, L [s ['h','y'], s k_var1], orUse [.bool false, s k_var1]],
+                L [s ['h','y'], .num (.fix 9)]] = [.ok .void, .ok (.num (.fix 9))] := by
+  decide +kernel
+
+/-- `(let ((x e) …) b body …)` ≈ `((lambda (x …) b body …) e …)`, names not reserved words -/
+theorem derived_let (ρ : Env) (bs : List (Text × Datum)) (b : Datum) (body : List Datum)
+    (hb : ∀ p ∈ bs, reserved p.1 = false) :
+    Same 1 (letUse (symBindings bs) b body) (letExp (symBindings bs) b body) ρ := let_same ρ bs b body hb
+
+/-- `(let* () b body …)` ≈ `(let () b body …)`;
+    `(let* ((x e) rest …) b body …)` ≈ `(let ((x e)) (let* (rest …) b body …))` -/
+theorem derived_letStar (ρ : Env) (bs : List (Text × Datum)) (b : Datum) (body : List Datum)
+    (hb : ∀ p ∈ bs, reserved p.1 = false) :
+    Same 1 (letStarUse (symBindings bs) b body) (letStarExp (symBindings bs) b body) ρ :=
+  letStar_same ρ bs b body hb
+
+/-- `(let tag ((x e) …) b body …)` ≈ `((letrec ((tag (lambda (x …) b body …))) tag) e …)` -/
+theorem derived_namedLet (ρ : Env) (tag : Text) (bs : List (Text × Datum)) (b : Datum) (body : List Datum)
+    (ht : reserved tag = false) (hb : ∀ p ∈ bs, reserved p.1 = false) :
+    Same 2 (namedLetUse tag (symBindings bs) b body) (namedLetExp tag (symBindings bs) b body) ρ :=
+  namedLet_same ρ tag bs b body ht hb
+
+/-- `(letrec ((x e) …) b body …)` against `(let ((x #f) …) (set! x e) … (let () b body …))`: the native
+    meaning is `letrecWith #<undefined>`, the expansion is `letrecWith #f` — they differ only in what a
+    variable holds before its initialisation, which R7RS leaves unspecified ("it is an error" to look) -/
+theorem derived_letrec_partial (ρ : Env) (bs : List (Text × Datum)) (b : Datum) (body : List Datum)
+    (hb : ∀ p ∈ bs, reserved p.1 = false) (n : Nat) :
+    (evalN (n+1)).eval (letrecUse (symBindings bs) b body) ρ = letrecWith .undef (evalN n) ρ bs (b :: body) ∧
+    (evalN (n+2)).eval (letrecExp (symBindings bs) b body) ρ = letrecWith (.bool false) (evalN n) ρ bs (b :: body) ∧
+    Le ((evalN n).eval (letrecExp (symBindings bs) b body) ρ) (letrecWith (.bool false) (evalN n) ρ bs (b :: body)) :=
+  letrec_same_with ρ bs b body hb n
+
+/-- one recursive procedure (the shape the expansion of named `let` produces): the variable is never
+    looked at before its initialisation, the expansion is exact -/
+theorem derived_letrec_single (ρ : Env) (f : Text) (formals lb : Datum) (lbs : List Datum) (b : Datum)
+    (body : List Datum) (ps : List Text) (rest : Option Text) (hf : reserved f = false)
+    (hp : parseFormals formals = some (ps, rest)) :
+    Same 1 (letrecUse (symBindings [(f, L (s k_lambda :: formals :: lb :: lbs))]) b body)
+           (letrecExp (symBindings [(f, L (s k_lambda :: formals :: lb :: lbs))]) b body) ρ :=
+  letrec_single_same ρ f formals lb lbs b body ps rest hf hp
+
+/-- the difference is observable by a program that looks: `(letrec ((a b) (b 1)) a)` -/
+theorem letrec_uninitialised_differs :
+    results 10 [letrecUse [(s ['a'], s ['b']), (s ['b'], .num (.fix 1))] (s ['a']) []] = [.ok .undefined] ∧
+    results 10 [letrecExp [(s ['a'], s ['b']), (s ['b'], .num (.fix 1))] (s ['a']) []] = [.ok (.bool false)] := by
+  decide +kernel
+
+/-- `(cond (else r1 r2 …))` ≈ `(begin r1 r2 …)` -/
+theorem derived_cond_else (ρ : Env) (r1 : Datum) (rs : List Datum) :
+    Same 1 (condUse [L (s k_else_ :: r1 :: rs)]) (condElseExp r1 rs) ρ := cond_else_same ρ r1 rs
+
+/-- `(cond (t r1 r2 …) clause …)` ≈ `(if t (begin r1 r2 …) [(cond clause …)])` -/
+theorem derived_cond_body (ρ : Env) (t r1 : Datum) (rs cs : List Datum) (ht : t ≠ s k_else_)
+    (hr : ¬ (r1 = s k_arrow ∧ rs.length = 1)) :
+    Same 1 (condUse (L (t :: r1 :: rs) :: cs)) (condBodyExp t r1 rs cs) ρ := cond_body_same ρ t r1 rs cs ht hr
+
+/-- `(cond (t))` against `t`: native = `t`'s value if true, else `#<void>`; the expansion is `t` -/
+theorem derived_cond_test_final (ρ : Env) (t : Datum) (ht : t ≠ s k_else_) (n : Nat) :
+    (evalN (n+1)).eval (condUse [L [t]]) ρ = (do
+      let v ← (evalN n).eval t ρ
+      if truthy v then pure v else pure .void) ∧
+    condTestExp t [] = t := cond_test_final_eval ρ t ht n
+
+/-- … so `(cond (#f))` is `#<void>` natively and `#f` by the expansion (unspecified in R7RS) -/
+theorem cond_test_final_differs :
+    results 10 [condUse [L [.bool false]]] = [.ok .void] ∧
+    results 10 [condTestExp (.bool false) []] = [.ok (.bool false)] := by decide +kernel
+
+/-- `(cond (t) c cs …)` against `(let ((temp t)) (if temp temp (cond c cs …)))`: what each computes -/
+theorem derived_cond_test_partial (ρ : Env) (n : Nat) (t c : Datum) (cs : List Datum) (ht : t ≠ s k_else_) :
+    (evalN (n+1)).eval (condUse (L [t] :: c :: cs)) ρ = (do
+      let v ← (evalN n).eval t ρ
+      if truthy v then pure v else evalCond (evalN n) ρ (c :: cs)) ∧
+    (evalN (n+4)).eval (condTestExp t (c :: cs)) ρ = (do
+      let v ← (evalN (n+3)).eval t ρ
+      let l ← allocCell (.var v)
+      if truthy v then pure v else evalCond (evalN (n+1)) ((k_temp, l) :: ρ) (c :: cs)) :=
+  ⟨cond_test_native_eval ρ n t c cs ht, cond_test_exp_eval ρ n t c cs⟩
+
+/-- `(cond (t => f) clause …)`: what `(let ((temp t)) (if temp (f temp) [(cond clause …)]))` computes -/
+theorem derived_cond_arrow_partial (ρ : Env) (n : Nat) (t f : Datum) (cs : List Datum) :
+    (evalN (n+3)).eval (condArrowExp t f cs) ρ = (do
+      let v ← (evalN (n+2)).eval t ρ
+      let l ← allocCell (.var v)
+      if truthy v then (evalN (n+1)).eval (L [f, s k_temp]) ((k_temp, l) :: ρ)
+      else (match cs with
+        | [] => pure .void
+        | c :: cs' => (evalN (n+1)).eval (condUse (c :: cs')) ((k_temp, l) :: ρ))) :=
+  cond_arrow_exp_eval ρ n t f cs
+
+/-- known finding `C01-prelude-macro-capture`, `cond`: `temp` free in a later clause -/
+theorem cond_capture_expansion_witness :
+    results 10 [L [s k_define, L [s ['h','t'], s k_temp], condTestExp (.bool false) [L [s k_else_, s k_temp]]],
+                L [s ['h','t'], .num (.fix 9)]] = [.ok .void, .ok (.bool false)] ∧
+    results 10 [L [s k_define, L [s ['h','t'], s k_temp], condUse [L [.bool false], L [s k_else_, s k_temp]]],
+                L [s ['h','t'], .num (.fix 9)]] = [.ok .void, .ok (.num (.fix 9))] := by
+  decide +kernel
+
+/-- `(case k (else => f))` ≈ `(f k)`, `f` not a syntactic keyword -/
+theorem derived_case_else_arrow (ρ : Env) (k f : Datum) (hf : ∀ x, f = .sym x → kwOf x = none) :
+    Same 1 (caseUse k [L [s k_else_, s k_arrow, f]]) (caseElseArrowExp k f) ρ := case_else_arrow_same ρ k f hf
+
+/-- `(case k (else r1 r2 …))` against `(begin r1 r2 …)`: the native meaning evaluates the key first -/
+theorem derived_case_else_partial (ρ : Env) (k r1 : Datum) (rs : List Datum)
+    (hr : ¬ (r1 = s k_arrow ∧ rs.length = 1)) (n : Nat) :
+    (evalN (n+1)).eval (caseUse k [L (s k_else_ :: r1 :: rs)]) ρ =
+      ((evalN n).eval k ρ >>= fun _ => evalExprs (evalN n) ρ (r1 :: rs)) ∧
+    (evalN (n+1)).eval (caseElseExp r1 rs) ρ = evalExprs (evalN n) ρ (r1 :: rs) :=
+  case_else_native_eval ρ k r1 rs hr n
+
+/-- known finding `C01-prelude-macro-capture`, `case`: `atom-key` free in a clause -/
+theorem case_capture_expansion_witness :
+    let key := [s ['c','a','r'], L [s k_quote, L [.num (.fix 1)]]]
+    let clauses := [L [L [.num (.fix 2)], .num (.fix 0)], L [s k_else_, s k_atomKey]]
+    results 12 [L [s k_define, L [s ['h','k'], s k_atomKey], caseKeyExp key clauses],
+                L [s ['h','k'], .num (.fix 9)]] = [.ok .void, .ok (.num (.fix 1))] ∧
+    results 12 [L [s k_define, L [s ['h','k'], s k_atomKey], caseUse (L key) clauses],
+                L [s ['h','k'], .num (.fix 9)]] = [.ok .void, .ok (.num (.fix 9))] := by
+  decide +kernel
+
+
+/-! ## T01.2, both halves together: `Spec.eval ρ (expand m form) ≈ Spec.eval ρ form`
+
+`expand m form` is the R7RS matcher (`Spec.Match.specExpand`, C17) applied with the rules of macro
+`m` as regenerated from `prelude.scm` on this run (`Lemmas/EvalDerivedExpand.lean`: for ALL
+sub-forms and all numbers of clauses / bindings / body forms, not instances). -/
+
+/-- the prelude's transformer for `name` rewrites `use` to a term that evaluates like `use` under its
+    native meaning, up to `k` levels of fuel, in environment `ρ` -/
+def ExpandsAndAgrees (name : Text) (k : Nat) (use : Datum) (ρ : Env) : Prop :=
+  ∃ exp, expand name use = some exp ∧ Same k use exp ρ
+
+theorem t01_2_when (ρ : Env) (t b : Datum) (body : List Datum) :
+    ExpandsAndAgrees k_when_ 1 (whenUse t b body) ρ := ⟨_, expand_when t b body, when_same ρ t b body⟩
+
+theorem t01_2_unless (ρ : Env) (t b : Datum) (body : List Datum) (st : St) (hρ : ρ.lookup k_not = none)
+    (hnot : ∀ m v st1, (evalN m).eval t ρ st = .ok v st1 → st1.globals.lookup k_not = some (.prim .not)) :
+    ∃ exp, expand k_unless_ (unlessUse t b body) = some exp ∧ SameAt 2 (unlessUse t b body) exp ρ st :=
+  ⟨_, expand_unless t b body, unless_same ρ t b body st hρ hnot⟩
+
+theorem t01_2_begin (ρ : Env) (es : List Datum) (h : ∀ e ∈ es, isDefine e = false) :
+    ExpandsAndAgrees k_begin_ 1 (beginUse es) ρ := ⟨_, expand_begin es, begin_same ρ es h⟩
+
+theorem t01_2_and (ρ : Env) (es : List Datum) : ExpandsAndAgrees k_and_ 1 (andUse es) ρ :=
+  ⟨_, expand_and es, and_same ρ es⟩
+
+theorem t01_2_or_short (ρ : Env) (e : Datum) :
+    ExpandsAndAgrees k_or_ 1 (orUse []) ρ ∧ ExpandsAndAgrees k_or_ 1 (orUse [e]) ρ :=
+  ⟨⟨_, expand_or [], or_same_nil ρ⟩, ⟨_, expand_or [e], or_same_one ρ e⟩⟩
+
+theorem t01_2_let (ρ : Env) (bs : List (Text × Datum)) (b : Datum) (body : List Datum)
+    (hb : ∀ p ∈ bs, reserved p.1 = false) :
+    ExpandsAndAgrees k_let_ 1 (letUse (symBindings bs) b body) ρ :=
+  ⟨_, expand_let _ b body, let_same ρ bs b body hb⟩
+
+theorem t01_2_letStar (ρ : Env) (bs : List (Text × Datum)) (b : Datum) (body : List Datum)
+    (hb : ∀ p ∈ bs, reserved p.1 = false) :
+    ExpandsAndAgrees k_letStar 1 (letStarUse (symBindings bs) b body) ρ :=
+  ⟨_, expand_letStar _ b body, letStar_same ρ bs b body hb⟩
+
+theorem t01_2_namedLet (ρ : Env) (tag : Text) (bs : List (Text × Datum)) (b : Datum) (body : List Datum)
+    (ht : reserved tag = false) (hb : ∀ p ∈ bs, reserved p.1 = false) :
+    ExpandsAndAgrees k_let_ 2 (namedLetUse tag (symBindings bs) b body) ρ :=
+  ⟨_, expand_namedLet tag _ b body, namedLet_same ρ tag bs b body ht hb⟩
+
+theorem t01_2_letrec_single (ρ : Env) (f : Text) (formals lb : Datum) (lbs : List Datum) (b : Datum)
+    (body : List Datum) (ps : List Text) (rest : Option Text) (hf : reserved f = false)
+    (hp : parseFormals formals = some (ps, rest)) :
+    ExpandsAndAgrees k_letrec 1 (letrecUse (symBindings [(f, L (s k_lambda :: formals :: lb :: lbs))]) b body) ρ :=
+  ⟨_, expand_letrec _ b body, letrec_single_same ρ f formals lb lbs b body ps rest hf hp⟩
+
+theorem t01_2_cond_else (ρ : Env) (r1 : Datum) (rs : List Datum) :
+    ExpandsAndAgrees k_cond 1 (condUse [L (s k_else_ :: r1 :: rs)]) ρ :=
+  ⟨_, expand_cond_else r1 rs, cond_else_same ρ r1 rs⟩
+
+theorem t01_2_cond_body (ρ : Env) (t r1 : Datum) (rs cs : List Datum) (ht : t ≠ s k_else_)
+    (hr : ¬ (r1 = s k_arrow ∧ rs.length = 1)) :
+    ExpandsAndAgrees k_cond 1 (condUse (L (t :: r1 :: rs) :: cs)) ρ :=
+  ⟨_, expand_cond_body t r1 rs cs ht hr, cond_body_same ρ t r1 rs cs ht hr⟩
+
+theorem t01_2_case_else_arrow (ρ : Env) (k f : Datum) (hk : ∀ ks, k ≠ L ks)
+    (hf : ∀ x, f = .sym x → kwOf x = none) :
+    ExpandsAndAgrees k_case_ 1 (caseUse k [L [s k_else_, s k_arrow, f]]) ρ :=
+  ⟨_, expand_case_else_arrow k f hk, case_else_arrow_same ρ k f hf⟩
+
+/-- the remaining rules: the expansion is the expected term for all uses (first half); what that
+    term evaluates to is `derived_letrec_partial`, `derived_or_partial`, `derived_cond_test_partial`,
+    `derived_cond_arrow_partial`, `derived_cond_test_final`, `derived_case_else_partial`; for `case`
+    with a datum list and for `delay` only the first half is proved -/
+theorem t01_2_first_half_rest :
+    (∀ bs b body, expand k_letrec (letrecUse bs b body) = some (letrecExp bs b body)) ∧
+    (∀ es, expand k_or_ (orUse es) = some (orExp es)) ∧
+    (∀ t f cs, t ≠ s k_else_ → expand k_cond (condUse (L [t, s k_arrow, f] :: cs)) = some (condArrowExp t f cs)) ∧
+    (∀ t cs, expand k_cond (condUse (L [t] :: cs)) = some (condTestExp t cs)) ∧
+    (∀ ks cs, expand k_case_ (caseUse (L ks) cs) = some (caseKeyExp ks cs)) ∧
+    (∀ k r1 rs, (∀ ks, k ≠ L ks) → ¬ (r1 = s k_arrow ∧ rs.length = 1) →
+      expand k_case_ (caseUse k [L (s k_else_ :: r1 :: rs)]) = some (caseElseExp r1 rs)) ∧
+    (∀ k atoms f cs, (∀ ks, k ≠ L ks) →
+      expand k_case_ (caseUse k (L [L atoms, s k_arrow, f] :: cs)) = some (caseArrowExp k atoms f cs)) ∧
+    (∀ k atoms r1 rs cs, (∀ ks, k ≠ L ks) → ¬ (r1 = s k_arrow ∧ rs.length = 1) →
+      expand k_case_ (caseUse k (L (L atoms :: r1 :: rs) :: cs)) = some (caseBodyExp k atoms r1 rs cs)) ∧
+    (∀ e, expand k_delay (delayUse e) = some (delayExp e)) ∧
+    (∀ e, expand k_delayForce (delayForceUse e) = some (delayForceExp e)) :=
+  ⟨expand_letrec, expand_or, fun t f cs ht => expand_cond_arrow t f cs ht, expand_cond_test, expand_case_key,
+   fun k r1 rs hk hr => expand_case_else k r1 rs hk hr, fun k atoms f cs hk => expand_case_arrow k atoms f cs hk,
+   fun k atoms r1 rs cs hk hr => expand_case_body k atoms r1 rs cs hk hr, expand_delay, expand_delayForce⟩
+
+
+/-! ## T01.3 stage 1 (partial): compiler correctness for the closure-free fragment, success case
+
+`Lemmas/CompileCorrect*.lean`. Machine: `Marwood.Vm.step` (Vm/Machine.lean) over any heap operations
+record `ops : HeapOps H`; representation `D : RepData ops` (which names have a global slot, which
+slot, `VR` machine value ~ `Spec.Eval.Val`, heap invariant); the ASSUMED laws are the fields of
+`RepLaws D` (CompileCorrectDefs.lean): global slots form a store (`slot_inj`, `glob_get_put`), writing
+a global changes neither code nor representations nor the invariant (`globPut_*`), `#f` is represented
+only by what `JNT` takes for false (`truth`), a representation is never the unbound marker
+(`ne_undefined`), `Void` represents the unspecified value (`void`), and `call`: whenever the
+specification's `apply` returns on represented callee and arguments, the callee is a generic builtin
+whose evaluation returns a representation of the same value in a heap representing the new state.
+The laws are satisfiable: `Lemmas/CompileCorrectConcrete.lean` proves the heap-proper ones for the
+concrete heap model, `Lemmas/CompileCorrectDemo.lean` discharges every hypothesis for `(not #t)`.
+Fragment `Frag`: constants, `(quote atom)`, global reference, `set!` of a global, `if` (both arities),
+application with a non-keyword head; `(define x e)` separately. Only `Spec.Eval` SUCCESS is covered. -/
+
+open Marwood.Lemmas.CompileCorrect in
+/-- **T01.3 stage 1, partial.** If the compiler model emits `code` for a fragment expression `e` at
+    offset `base` (top-level context, either tail flag) and `Spec.Eval` evaluates `e` to `w` taking `σ`
+    to `σ'`, then from every machine state whose current lambda holds `code` at `base = ip.1` (anything
+    around it) and whose heap represents `σ`, the machine runs, without halting or failing, to a state
+    with the same lambda, `bp`, `ep`, `ip.1 = base + code.length`, the same live stack, a representation
+    of `w` in `acc`, and a heap that represents `σ'`. -/
+theorem compile_correct_stage1_partial {H : Type} {ops : HeapOps H} {D : RepData ops} (L : RepLaws D)
+    (fuel : Nat) (cst : CState) (base : Nat) (tail : Bool) (e : Datum) (cst' : CState) (code : List BC)
+    (hf : Frag e) (hcomp : compileExpr fuel cst c0 base tail e = .ok (cst', code))
+    (n : Nat) (σ : Spec.Eval.St) (w : Val) (σ' : Spec.Eval.St) (hev : (evalN n).eval e [] σ = .ok w σ')
+    (s : Vm.St H) (hc : CodeAt D s.heap σ.store s.ipL base code) (hip : s.ipO = base)
+    (hsr : SR D s.heap σ) (hw : SWF s.stack) :
+    ∃ s', ExprRun D s code.length σ σ' w s' :=
+  compileExpr_correct L fuel cst base tail e cst' code hf hcomp n σ w σ' hev s hc hip hsr hw
 
 end Marwood.Proofs.C01
